@@ -8,7 +8,7 @@
 
 Exit codes: 0 held, 1 violation (not a known finding), 2 analysis broken.
 """
-import json, os, subprocess, sys, time, hashlib
+import json, os, re, subprocess, sys, time, hashlib
 from concurrent.futures import ThreadPoolExecutor
 
 VERIF = os.path.dirname(os.path.dirname(os.path.abspath(__file__)))
@@ -430,6 +430,52 @@ class Program:
 
 # --------------------------------------------------------------------------
 
+class BrokenResult(tuple):
+    """what a rule function returns (through the isolation wrapper of bin/check) when the analysis of that one rule broke: it
+    indexes like an empty (instances, findings, 0) result and carries the reason; apply() records it and goes on to the next rule, so
+    violations recognised by other rules are still reported (positive evidence wins over `analysis broken`)."""
+    def __new__(cls, msg):
+        t = tuple.__new__(cls, ([], [], 0))
+        t.broken = msg
+        return t
+
+
+def isolate(fn):
+    import functools, traceback
+
+    @functools.wraps(fn)
+    def wrapper(*a, **kw):
+        try:
+            return fn(*a, **kw)
+        except Broken as e:
+            return BrokenResult(str(e))
+        except RecursionError:
+            return BrokenResult("recursion limit reached inside %s" % fn.__name__)
+        except Exception as e:      # a defect of the checker itself on this tree: analysis broken for this rule, never a verdict
+            tb = traceback.format_exc().strip().split("\n")
+            return BrokenResult("internal error in %s: %s: %s [%s]" % (fn.__name__, type(e).__name__, e, tb[-3].strip() if len(tb) >= 3 else ""))
+    wrapper._isolated = True
+    return wrapper
+
+
+def isolate_rule_modules():
+    """wrap the public rule functions (name without leading underscore, first parameter `prog`) of every loaded r_* module"""
+    import sys, inspect
+    for name, mod in list(sys.modules.items()):
+        if not name.startswith("r_") or mod is None:
+            continue
+        for an, fn in list(vars(mod).items()):
+            if an.startswith("_") or not inspect.isfunction(fn) or getattr(fn, "_isolated", False) or fn.__module__ != name:
+                continue
+            try:
+                params = list(inspect.signature(fn).parameters)
+            except (TypeError, ValueError):
+                continue
+            if not params or params[0] != "prog" or not re.fullmatch(r"[a-z][a-z]?[0-9]+[a-z]?(_[a-z0-9]+)?", an):
+                continue
+            setattr(mod, an, isolate(fn))
+
+
 class Report:
     """collects obligations and findings for one property check"""
 
@@ -447,6 +493,7 @@ class Report:
         self.extra = {}
         self.not_decided = ""
         self.clause = ""
+        self.broken = []        # (rule, reason) of rules whose analysis broke
         kf = json.load(open(os.path.join(VERIF, "known-findings.json")))
         self.known = [k for k in kf.get("known", []) if k["property"] == prop]
         self.fixed = [k for k in kf.get("fixed", []) if k["property"] == prop]
@@ -526,10 +573,16 @@ class Report:
               "assumptions": self.assumptions + [
                   "clang 14 front end resolves callees, templates and constants as the real compiler does (analysis flags: -std=c++14 -UNDEBUG; asserts are never counted as checks)"],
               "wall_s": round(wall, 2), "violations": len(viol)}
+        if self.broken:
+            cov["rules_broken"] = [{"rule": r, "reason": m} for r, m in self.broken]
         json.dump(ev, open(os.path.join(evdir, "%s.json" % self.prop), "w"), indent=1)
         if viol:
+            for r, m in self.broken:
+                print("note: rule %s could not be analysed on this tree: %s" % (r, m))
             print("VIOLATION property=%s replay=%s" % (self.prop, replay))
             return 1
+        if self.broken:
+            raise Broken("; ".join("rule %s: %s" % b for b in self.broken))
         print("OK property=%s tier=%s obligations=%d discharged=%d known=%d wall=%.1fs" %
               (self.prop, self.tier, self.obligations, self.discharged + 0, len(known_hits), wall))
         return 0
